@@ -87,6 +87,46 @@ def target_dir(cfg):
     return os.path.join(TARGET_ROOT, repo_tag(), cfg)
 
 
+BACKEND_FEATURE = {"sse2-rel": None, "sse2-dbg": None, "native": None, "scalar": "scalar-math", "coresimd": "core-simd",
+                   "miri": None, "miri-scalar": "scalar-math", "miri-coresimd": "core-simd", "asan": None}
+_ops = {}
+_ops_lock = __import__("threading").Lock()
+
+
+def gen_ops(cfg):
+    """rustdoc JSON of the working tree (same backend feature as cfg) -> ops_generated.rs via apigen."""
+    feat = BACKEND_FEATURE[cfg]
+    key = feat or "sse2"
+    with _ops_lock:
+        if key in _ops:
+            return _ops[key]
+        gen = os.path.join(TARGET_ROOT, repo_tag(), "gen", key)
+        os.makedirs(gen, exist_ok=True)
+        cmd = ["cargo", "+nightly", "rustdoc", "--offline", "--manifest-path", os.path.join(REPO, "Cargo.toml"), "--lib",
+               "--target-dir", os.path.join(gen, "doc-target")]
+        if feat:
+            cmd += ["--features", feat]
+        cmd += ["--", "-Z", "unstable-options", "--output-format", "json"]
+        t0 = time.time()
+        p = subprocess.run(cmd, env=base_env(), stdout=subprocess.PIPE, stderr=subprocess.STDOUT, text=True)
+        js = os.path.join(gen, "doc-target", "doc", "glam.json")
+        if p.returncode != 0 or not os.path.exists(js):
+            raise HarnessError("rustdoc JSON for %s failed:\n%s" % (key, "\n".join(p.stdout.splitlines()[-40:])))
+        tmp_rs, api = os.path.join(gen, "ops_generated.rs.new"), os.path.join(gen, "api.json")
+        q = subprocess.run([sys.executable, os.path.join(VERIF, "apigen.py"), js, tmp_rs, api],
+                           stdout=subprocess.PIPE, stderr=subprocess.STDOUT, text=True)
+        if q.returncode != 0:
+            raise HarnessError("apigen failed for %s:\n%s" % (key, q.stdout[-3000:]))
+        rs = os.path.join(gen, "ops_generated.rs")
+        if not os.path.exists(rs) or open(rs).read() != open(tmp_rs).read():
+            os.replace(tmp_rs, rs)
+        else:
+            os.unlink(tmp_rs)
+        log("api %s: %s (%.1fs)" % (key, q.stdout.strip().splitlines()[-1] if q.stdout.strip() else "", time.time() - t0))
+        _ops[key] = (rs, json.load(open(api)))
+        return _ops[key]
+
+
 _built = {}
 
 
@@ -106,6 +146,7 @@ def build(cfg, extra_env=None):
     env = base_env()
     if c["rustflags"]:
         env["RUSTFLAGS"] = c["rustflags"]
+    env["GLAMSIM_OPS"] = gen_ops(cfg)[0]
     env.update(extra_env or {})
     t0 = time.time()
     p = subprocess.run(cmd, env=env, cwd=SIM, stdout=subprocess.PIPE, stderr=subprocess.STDOUT, text=True)
@@ -143,11 +184,143 @@ def run_sim(cfg, args, timeout=3600):
         os.unlink(outp)
     cmd = [binp] + [str(a) for a in args] + ["--out", outp]
     p = subprocess.run(cmd, env=base_env(), stdout=subprocess.PIPE, stderr=subprocess.PIPE, text=True, timeout=timeout)
+    if p.returncode == 77 and "GLAMSIM-CRASH" in p.stderr:
+        line = [l for l in p.stderr.splitlines() if "GLAMSIM-CRASH" in l][-1]
+        raise CrashFound(cfg, last_case(p.stderr), line.strip())
     if p.returncode != 0 or not os.path.exists(outp):
         raise HarnessError("simulator %s %s exited %s:\n%s" % (cfg, " ".join(map(str, args)), p.returncode, p.stderr[-3000:]))
     j = json.load(open(outp))
     os.unlink(outp)
     return j
+
+
+class CrashFound(Exception):
+    def __init__(self, cfg, case, what):
+        self.cfg, self.case, self.what = cfg, case, what
+
+
+def last_case(stderr):
+    case = None
+    for line in stderr.splitlines():
+        if line.startswith("GLAMSIM-CASE "):
+            case = line[len("GLAMSIM-CASE "):]
+        elif "GLAMSIM-CRASH" in line and " case=" in line:
+            case = line.split(" case=", 1)[1]
+    try:
+        return json.loads(case) if case else None
+    except ValueError:
+        return {"unparsed": case}
+
+
+TYPE_GROUPS = [
+    ["Vec3A", "BVec3A"], ["Vec4", "BVec4A"], ["Quat", "Mat2"], ["Mat3A"], ["Mat4"], ["Affine2", "Affine3A"],
+    ["Vec2", "Vec3", "DVec2", "DVec3", "DVec4", "DQuat", "BVec2", "BVec3", "BVec4"], ["Mat3", "DMat2", "DMat3", "DMat4", "DAffine2", "DAffine3"],
+    ["I8Vec2", "I8Vec3", "I8Vec4", "U8Vec2", "U8Vec3", "U8Vec4", "I16Vec2", "I16Vec3", "I16Vec4"],
+    ["U16Vec2", "U16Vec3", "U16Vec4", "IVec2", "IVec3", "IVec4", "UVec2", "UVec3", "UVec4"],
+    ["I64Vec2", "I64Vec3", "I64Vec4", "U64Vec2", "U64Vec3", "U64Vec4", "USizeVec2", "USizeVec3", "USizeVec4"],
+]
+SIMD_GROUPS = TYPE_GROUPS[:6] + [["Vec3", "DVec4", "DQuat", "DMat3", "BVec3"]]
+
+MIRI_FLAGS = "-Zmiri-disable-isolation"
+
+
+def miri_cmd(cfg, args):
+    feat = BACKEND_FEATURE[cfg]
+    cmd = ["cargo", "+nightly", "miri", "run", "--offline", "--manifest-path", manifest_path(), "--no-default-features",
+           "--target-dir", target_dir(cfg)]
+    if feat:
+        cmd += ["--features", feat]
+    return cmd + ["--"] + [str(a) for a in args]
+
+
+def miri_env(cfg):
+    env = base_env()
+    env["MIRIFLAGS"] = MIRI_FLAGS
+    env["GLAMSIM_OPS"] = gen_ops(cfg)[0]
+    return env
+
+
+def merge_results(rs):
+    out = {"evaluations": 0, "violations_total": 0, "violations": [], "distinct_nontrivial": 0, "faults_fired": {}, "faults_effective": {},
+           "probes": {}, "samples": [], "extra": {}, "digests": {}}
+    for r in rs:
+        out["evaluations"] += r["evaluations"]
+        out["violations_total"] += r["violations_total"]
+        out["violations"] += r["violations"]
+        out["distinct_nontrivial"] += r["distinct_nontrivial"]
+        merge_counts(out["faults_fired"], r.get("faults_fired", {}))
+        merge_counts(out["faults_effective"], r.get("faults_effective", {}))
+        out["samples"] += r.get("samples", [])[:1]
+        out["extra"] = r.get("extra", {})
+    return out
+
+
+def run_monitored(cfg, cmds_envs, what):
+    """Run several simulator processes of an external-monitor build (Miri / ASan) concurrently. A monitor abort
+    (UB report, ASan report) raises CrashFound naming the last announced case."""
+    from concurrent.futures import ThreadPoolExecutor
+    outdir = os.path.join(TARGET_ROOT, repo_tag(), "out")
+    os.makedirs(outdir, exist_ok=True)
+
+    def one(i_cmd_env):
+        i, (cmd, env) = i_cmd_env
+        outp = os.path.join(outdir, "%s-%d-%d.json" % (cfg, os.getpid(), i))
+        if os.path.exists(outp):
+            os.unlink(outp)
+        p = subprocess.run(cmd + ["--out", outp], env=env, cwd=SIM, stdout=subprocess.PIPE, stderr=subprocess.PIPE, text=True, timeout=4 * 3600)
+        if p.returncode != 0 or not os.path.exists(outp):
+            err = p.stderr
+            ub = [l for l in err.splitlines() if ("Undefined Behavior" in l or "AddressSanitizer" in l or "GLAMSIM-CRASH" in l
+                                                    or "error: unsupported operation" in l or "memory leaked" in l)]
+            if ub and not any("unsupported operation" in l for l in ub):
+                raise CrashFound(cfg, last_case(err), ub[0].strip())
+            raise HarnessError("%s run failed (exit %s):\n%s" % (what, p.returncode, "\n".join(
+                [l for l in err.splitlines() if not l.startswith("GLAMSIM-CASE")][-40:])))
+        j = json.load(open(outp))
+        os.unlink(outp)
+        return j
+
+    with ThreadPoolExecutor(max_workers=NCPU) as ex:
+        rs = list(ex.map(one, enumerate(cmds_envs)))
+    if len(rs) == 1 and "reproduced" in rs[0]:
+        return rs[0]
+    return merge_results(rs)
+
+
+def run_miri(cfg, args, groups=None):
+    env = miri_env(cfg)
+    # build once (cargo serialises on the target-dir lock anyway)
+    t0 = time.time()
+    p = subprocess.run(miri_cmd(cfg, ["info"]), env=env, cwd=SIM, stdout=subprocess.PIPE, stderr=subprocess.STDOUT, text=True)
+    if p.returncode != 0:
+        raise HarnessError("miri build failed for %s:\n%s" % (cfg, "\n".join(p.stdout.splitlines()[-40:])))
+    log("miri build %s in %.1fs" % (cfg, time.time() - t0))
+    if groups:
+        jobs = [(miri_cmd(cfg, list(args) + ["--types", ",".join(g)]), env) for g in groups]
+    else:
+        jobs = [(miri_cmd(cfg, args), env)]
+    return run_monitored(cfg, jobs, "miri")
+
+
+def asan_binary():
+    env = base_env()
+    env["RUSTFLAGS"] = "-Zsanitizer=address"
+    env["GLAMSIM_OPS"] = gen_ops("asan")[0]
+    cmd = ["cargo", "+nightly", "build", "--release", "--offline", "--manifest-path", manifest_path(), "--no-default-features",
+           "--target", "x86_64-unknown-linux-gnu", "--target-dir", target_dir("asan")]
+    t0 = time.time()
+    p = subprocess.run(cmd, env=env, cwd=SIM, stdout=subprocess.PIPE, stderr=subprocess.STDOUT, text=True)
+    if p.returncode != 0:
+        raise HarnessError("ASan build failed:\n%s" % "\n".join(p.stdout.splitlines()[-40:]))
+    log("built asan in %.1fs" % (time.time() - t0))
+    return os.path.join(target_dir("asan"), "x86_64-unknown-linux-gnu", "release", "glamsim")
+
+
+def run_asan(args):
+    binp = asan_binary()
+    env = base_env()
+    env["ASAN_OPTIONS"] = "detect_leaks=0:abort_on_error=0:halt_on_error=1"
+    return run_monitored("asan", [([binp] + [str(a) for a in args] + ["--echo-cases"], env)], "asan")
 
 
 def available_configs(names):
@@ -208,9 +381,31 @@ def replay_file(path):
     if rep.get("kind") == "cross-build":
         return rep, replay_cross_build(rep, path)
     cfg = rep.get("config")
-    if cfg not in CONFIGS:
-        raise HarnessError("replay names unknown configuration %r" % cfg)
-    return rep, run_sim(cfg, ["replay", "--file", path])
+    try:
+        if cfg in ("miri", "miri-scalar", "miri-coresimd"):
+            res = run_miri(cfg, ["replay", "--file", path])
+        elif cfg == "asan":
+            res = run_asan(["replay", "--file", path])
+        elif cfg in CONFIGS:
+            res = run_sim(cfg, ["replay", "--file", path])
+        else:
+            raise HarnessError("replay names unknown configuration %r" % cfg)
+    except CrashFound as e:
+        same = rep.get("violation_class", "").startswith("memory-fault:")
+        return rep, {"reproduced": same, "same_class": same, "class": rep.get("violation_class"), "observed": e.what}
+    if "reproduced" not in res:
+        # merged result of a monitored run that completed without the monitor firing
+        res = {"reproduced": False, "same_class": False, "class": None, "observed": None}
+    return rep, res
+
+
+def crash_violation(e, seed, mem):
+    case = e.case or {}
+    name = ("%s::%s" % (case["type"], case["fn"])) if "type" in case else case.get("fn", "?")
+    cls = "memory-fault:%s" % name
+    return {"class": cls, "config": e.cfg, "detail": "%s while executing case %s" % (e.what, json.dumps(case)),
+            "replay": {"property": "C18", "part": "M", "seed": seed, "mem": mem, "case": case, "violation_class": cls,
+                       "observed": e.what, "monitor": e.cfg}}
 
 
 def report(prop, all_violations, verify_replay=True):
@@ -335,6 +530,184 @@ def check_c19(tier, seed):
     return rc
 
 
+def collect(results, viols, fired, effective, probes):
+    evals = 0
+    for c, r in results:
+        evals += r["evaluations"]
+        merge_counts(fired, r.get("faults_fired", {}))
+        merge_counts(effective, r.get("faults_effective", {}))
+        merge_counts(probes, r.get("probes", {}))
+        for v in r["violations"]:
+            v = dict(v)
+            v["config"] = c
+            viols.append(v)
+    return evals
+
+
+def selftest_determinism(cfg, seed, runs=3000, seeds=8):
+    """Same seed twice, at 1 and 16 workers, in separate processes: event-log digests must agree."""
+    bad = []
+    for k in range(seeds):
+        sd = seed + 1000003 * k
+        a = run_sim(cfg, ["c08", "--seed", sd, "--runs", runs, "--workers", 1])
+        b = run_sim(cfg, ["c08", "--seed", sd, "--runs", runs, "--workers", NCPU])
+        da = (a["digests"], a["evaluations"], a["distinct_nontrivial"], a["faults_fired"])
+        db = (b["digests"], b["evaluations"], b["distinct_nontrivial"], b["faults_fired"])
+        if da != db:
+            bad.append(sd)
+    if bad:
+        raise HarnessError("determinism self-test failed for seeds %s on %s: the simulator is not a pure function of the seed" % (bad, cfg))
+    return {"seeds": seeds, "runs_per_seed": runs, "worker_counts": [1, NCPU], "config": cfg, "diverging": 0}
+
+
+# ------------------------------------------------------------------------------------------------
+# C08
+
+def check_c08(tier, seed):
+    t0 = time.time()
+    names = ["sse2-rel", "sse2-dbg", "coresimd"] + (["native"] if tier == "thorough" else [])
+    cfgs, skipped = available_configs(names)
+    skipped.append(("scalar", "the padding lane does not exist under scalar-math (the property says so)"))
+    runs = {"quick": {"sse2-rel": 300000, "sse2-dbg": 40000, "coresimd": 300000, "native": 0},
+            "thorough": {"sse2-rel": 6000000, "sse2-dbg": 500000, "coresimd": 6000000, "native": 6000000}}[tier]
+    build_all(cfgs)
+    det = selftest_determinism("sse2-rel", seed, runs=2000, seeds=4 if tier == "quick" else 32)
+    results = []
+    for c in cfgs:
+        results.append((c, run_sim(c, ["c08", "--seed", seed, "--runs", runs[c], "--workers", NCPU])))
+    viols, fired, effective, probes = [], {}, {}, {}
+    evals = collect(results, viols, fired, effective, probes)
+    miri = None
+    if tier == "thorough":
+        miri = run_miri("miri", ["c08", "--seed", seed, "--runs", 1500, "--workers", 1])
+        results.append(("miri", miri))
+        evals += miri["evaluations"]
+        for v in miri["violations"]:
+            v = dict(v); v["config"] = "miri"; viols.append(v)
+    rc, known_keys, new_classes = report("C08", viols)
+    ref = results[0][1]
+    api = gen_ops("sse2-rel")[1]
+    cov = {
+        "evaluations": evals,
+        "distinct_nontrivial": max(r["distinct_nontrivial"] for _, r in results),
+        "rule": "a case is a seeded program (1-12 public ops over a register file) with a materialised POISON_LANE3 fault plan, "
+                "executed under plans none / P / complement(P); distinct = (op, poisoned operand position, poison class) triples whose "
+                "poison actually reached an operand of that op (max over configurations)",
+        "samples": ref["samples"][:2],
+        "configurations_run": [c for c, _ in results],
+        "configurations_skipped": skipped,
+        "programs_per_configuration": {c: r["evaluations"] for c, r in results},
+        "fault_kinds_fired": fired,
+        "fault_kinds_effective": effective,
+        "ops_under_test": ref["extra"]["ops_taking_padded_values"],
+        "ops_reached_with_effective_poison": {c: r["extra"]["ops_reached_with_effective_poison"] for c, r in results},
+        "ops_never_reached": {c: r["extra"]["ops_never_reached_with_effective_poison"] for c, r in results},
+        "steps_executed": sum(r["extra"]["steps_executed"] for _, r in results),
+        "uncovered_api": api["uncovered_api"],
+        "determinism_selftest": det,
+        "event_log_digests": {c: r["digests"] for c, r in results},
+        "runs_per_hour": int(evals / max(time.time() - t0, 1e-9) * 3600),
+        "simulated_time": "none - no clock, timer or deadline exists in glam",
+        "components": COMPONENTS,
+        "known_findings_seen": known_keys,
+        "new_violation_classes": new_classes,
+    }
+    write_evidence("C08", tier, seed, "exploration", cov,
+                   ["x86_64: SSE2 and core-simd backends only (NEON / wasm32 cannot be built here)",
+                    "twin-run non-interference: glam is deterministic, so any visible difference between runs that differ only in "
+                    "padding-lane content is a dependence on that lane; programs are sampled, not enumerated",
+                    "visible projection read through to_array, field access, Into<[f32;3]>, Into<Vec3> (Vec3A); bitmask, Into<[bool;3]>, test, "
+                    "Into<[u32;3]> (BVec3A); to_cols_array, to_cols_array_2d, column fields (Mat3A / Affine3A)"],
+                   time.time() - t0, len(new_classes))
+    return rc
+
+
+# ------------------------------------------------------------------------------------------------
+# C18
+
+def check_c18(tier, seed):
+    t0 = time.time()
+    cfgs, skipped = available_configs(["sse2-rel", "sse2-dbg", "scalar", "coresimd"] + (["native"] if tier == "thorough" else []))
+    build_all(cfgs)
+    rounds = 2 if tier == "quick" else 24
+    samples = 48 if tier == "quick" else 4000
+    results_m, results_p = [], []
+    crash_viols = []
+    for c in cfgs:
+        try:
+            results_m.append((c, run_sim(c, ["c18m", "--seed", seed, "--rounds", rounds])))
+        except CrashFound as e:
+            crash_viols.append(crash_violation(e, seed, "Guarded"))
+        results_p.append((c, run_sim(c, ["c18p", "--seed", seed, "--samples", samples if c != "sse2-dbg" else max(8, samples // 8), "--workers", NCPU])))
+    viols, fired, effective, probes = list(crash_viols), {}, {}, {}
+    evals = collect(results_m, viols, fired, effective, probes)
+    evals += collect(results_p, viols, fired, effective, probes)
+    monitors = {}
+    # machine-level monitors: Miri (quick: subset of lengths/offsets; thorough: full product, 3 backends), ASan (thorough)
+    miri_cfgs = ["miri"] if tier == "quick" else ["miri", "miri-scalar", "miri-coresimd"]
+    for mc in miri_cfgs:
+        args = ["c18m", "--seed", seed, "--rounds", 1, "--mem", "heap"] + (["--subset"] if tier == "quick" else [])
+        try:
+            r = run_miri(mc, args, groups=SIMD_GROUPS if tier == "quick" else TYPE_GROUPS)
+        except CrashFound as e:
+            viols.append(crash_violation(e, seed, "Heap"))
+            monitors[mc] = {"cases": 0, "ub_reports": 1}
+            continue
+        monitors[mc] = {"cases": r["evaluations"], "violations": r["violations_total"], "ub_reports": 0}
+        evals += r["evaluations"]
+        for v in r["violations"]:
+            v = dict(v); v["config"] = mc; viols.append(v)
+    try:
+        r = run_asan(["c18m", "--seed", seed, "--rounds", 2 if tier == "quick" else 16, "--mem", "heap"])
+        monitors["asan"] = {"cases": r["evaluations"], "violations": r["violations_total"], "asan_reports": 0}
+        evals += r["evaluations"]
+        for v in r["violations"]:
+            v = dict(v); v["config"] = "asan"; viols.append(v)
+    except CrashFound as e:
+        viols.append(crash_violation(e, seed, "Heap"))
+        monitors["asan"] = {"cases": 0, "asan_reports": 1}
+    rc, known_keys, new_classes = report("C18", viols)
+    api = {c: gen_ops(c)[1] for c in cfgs}
+    if not results_m:
+        results_m = [("none", {"evaluations": 0, "distinct_nontrivial": 0, "samples": [], "extra": {}, "violations": []})]
+    refm, refp = results_m[0][1], results_p[0][1]
+    distinct = max(r["distinct_nontrivial"] for _, r in results_m) + max(r["extra"]["distinct_inputs_executed"] for _, r in results_p)
+    cov = {
+        "evaluations": evals,
+        "distinct_nontrivial": distinct,
+        "rule": "(M) every slice function x length 0..N+4 x misalignment 0..3 elements x placement {tail-guard, head-guard, interior+canaries} "
+                "and every index function x index in {0..limit+2, usize::MAX}, enumerated completely, contents ordinal then seeded; "
+                "(P) every public function/operator/trait method of the float types (from rustdoc JSON of the working tree) x every argument "
+                "position x every special-value-lattice entry (uniform and single-lane), lattice products, plus seeded samples; "
+                "distinct = distinct memory cases + distinct argument tuples actually executed (max over configurations)",
+        "exhaustive": False,
+        "samples": refm["samples"][:3] + refp["samples"][:3],
+        "configurations_run": cfgs + list(monitors),
+        "configurations_skipped": skipped,
+        "memory_cases_per_config": {c: r["evaluations"] for c, r in results_m},
+        "memory_extra": refm["extra"],
+        "hostile_calls_per_config": {c: r["evaluations"] for c, r in results_p},
+        "ops_per_config": {c: r["extra"]["ops"] for c, r in results_p},
+        "fault_kinds_fired": fired,
+        "fault_kinds_effective": effective,
+        "fault_kinds_stuck_at_zero": sorted(k for k, v in effective.items() if v == 0),
+        "monitors": monitors,
+        "uncovered_api": {c: a["uncovered_api"] for c, a in api.items()},
+        "runs_per_hour": int(evals / max(time.time() - t0, 1e-9) * 3600),
+        "simulated_time": "none - no clock, timer or deadline exists in glam",
+        "components": COMPONENTS,
+        "known_findings_seen": known_keys,
+        "new_violation_classes": new_classes,
+    }
+    write_evidence("C18", tier, seed, "fault_enumeration", cov,
+                   ["x86_64 only; glam-assert / debug-glam-assert features off, as the property states",
+                    "(M) is exhaustive over its finite case space; (P) samples values around an exhaustive (function, position, lattice) grid",
+                    "a guard-page crash, Miri UB report or ASan report is attributed to the last announced case",
+                    "out-of-bounds *reads* that stay inside the arena page are only visible to Miri / ASan, not to canaries"],
+                   time.time() - t0, len(new_classes))
+    return rc
+
+
 def cross_build_violation(t, ca, cb, seed, values):
     """Pinpoint the first value whose serialised forms differ between two builds."""
     fa = run_sim(ca, ["c19forms", "--type", t, "--seed", seed, "--values", values])["forms"]
@@ -367,7 +740,7 @@ def replay_cross_build(rep, path):
             "class": rep["violation_class"] if not same else None, "observed": {ca: fa, cb: fb}}
 
 
-CHECKS = {"C19": check_c19}
+CHECKS = {"C08": check_c08, "C18": check_c18, "C19": check_c19}
 
 
 def main():
